@@ -1,4 +1,346 @@
+(* C12 -- lemmas about the tree part of the model (validity, generation, mutation, root binds keys). *)
 From Coq Require Import List NArith ZArith Arith Bool Lia.
-From MV Require Import C12.Model.
+From MV Require Import Common.Cases Gen.C12 C12.Model.
 Import ListNotations.
 Open Scope list_scope.
+
+(* ---------- generic ---------- *)
+
+Lemma list_eqb_N_eq : forall a b : list N, list_eqb N.eqb a b = true <-> a = b.
+Proof.
+  induction a as [|x a IH]; destruct b as [|y b]; simpl; split; intro E; try congruence; try discriminate.
+  - apply andb_true_iff in E. destruct E as [E1 E2]. apply N.eqb_eq in E1. apply IH in E2. congruence.
+  - inversion E; subst. apply andb_true_iff. split. apply N.eqb_refl. apply IH. reflexivity.
+Qed.
+
+Lemma bytes_eqb_eq : forall a b, bytes_eqb a b = true <-> a = b.
+Proof. exact list_eqb_N_eq. Qed.
+
+Lemma bytes_eqb_refl : forall a, bytes_eqb a a = true.
+Proof. intro a. apply bytes_eqb_eq. reflexivity. Qed.
+
+Lemma bytes_eqb_neq : forall a b, bytes_eqb a b = false <-> a <> b.
+Proof.
+  intros a b. split.
+  - intros E C. apply bytes_eqb_eq in C. congruence.
+  - intro C. destruct (bytes_eqb a b) eqn:E; auto. apply bytes_eqb_eq in E. contradiction.
+Qed.
+
+Definition bytes_eq_dec : forall a b : bytes, {a = b} + {a <> b} := list_eq_dec N.eq_dec.
+
+Lemma is_nil_true : forall (A : Type) (l : list A), is_nil l = true <-> l = [].
+Proof. intros A l. destruct l; simpl; split; congruence. Qed.
+
+Lemma is_nil_false : forall (A : Type) (l : list A), is_nil l = false <-> l <> [].
+Proof. intros A l. destruct l; simpl; split; congruence. Qed.
+
+Lemma app_inj_len : forall (A : Type) (a a' b b' : list A),
+  a ++ b = a' ++ b' -> length a = length a' -> a = a' /\ b = b'.
+Proof.
+  induction a as [|x a IH]; destruct a' as [|y a']; simpl; intros b b' E L; try discriminate.
+  - auto.
+  - inversion E; subst. inversion L. destruct (IH a' b b' H1 H0) as [E1 E2]. subst. auto.
+Qed.
+
+Lemma app_inj_len_r : forall (A : Type) (a a' b b' : list A),
+  a ++ b = a' ++ b' -> length b = length b' -> a = a' /\ b = b'.
+Proof.
+  intros A a a' b b' E L. apply app_inj_len; auto.
+  assert (length (a ++ b) = length (a' ++ b')) by congruence.
+  rewrite !app_length in H. lia.
+Qed.
+
+Lemma forallb_i_spec : forall (A : Type) (f : nat -> A -> bool) l i,
+  forallb_i f i l = true <-> (forall j n, nth_error l j = Some n -> f (i + j) n = true).
+Proof.
+  induction l as [|x l IH]; intro i; simpl.
+  - split; auto. intros _ j n E. destruct j; discriminate.
+  - rewrite andb_true_iff, IH. split.
+    + intros [E1 E2] j n E. destruct j; simpl in E.
+      * inversion E; subst. rewrite Nat.add_0_r. exact E1.
+      * replace (i + S j) with (S i + j) by lia. apply E2. exact E.
+    + intro E. split.
+      * specialize (E 0 x eq_refl). rewrite Nat.add_0_r in E. exact E.
+      * intros j n Ej. replace (S i + j) with (i + S j) by lia. apply E. exact Ej.
+Qed.
+
+Lemma nth_error_replace_same : forall (A : Type) (l : list A) i x,
+  i < length l -> nth_error (replace_nth l i x) i = Some x.
+Proof.
+  induction l as [|y l IH]; intros i x L; simpl in L; try lia.
+  destruct i; simpl; auto. apply IH. lia.
+Qed.
+
+Lemma nth_error_replace_other : forall (A : Type) (l : list A) i j x,
+  i <> j -> nth_error (replace_nth l i x) j = nth_error l j.
+Proof.
+  induction l as [|y l IH]; intros i j x N; simpl.
+  - destruct i; reflexivity.
+  - destruct i; destruct j; simpl; auto; try congruence; try (apply IH; congruence).
+Qed.
+
+Lemma replace_nth_length : forall (A : Type) (l : list A) i x, length (replace_nth l i x) = length l.
+Proof. induction l as [|y l IH]; intros i x; destruct i; simpl; auto. Qed.
+
+Lemma nth_error_ext : forall (A : Type) (a b : list A),
+  (forall j, nth_error a j = nth_error b j) -> a = b.
+Proof.
+  induction a as [|x a IH]; destruct b as [|y b]; intro E; auto.
+  - specialize (E 0). discriminate.
+  - specialize (E 0). discriminate.
+  - f_equal. specialize (E 0). simpl in E. congruence. apply IH. intro j. apply (E (S j)).
+Qed.
+
+(* ---------- the tree ---------- *)
+
+Section Tree.
+Variable H : bytes -> bytes.
+Hypothesis Hlen : forall x, length (H x) = 32.
+
+Definition collision : Prop := exists x y : bytes, x <> y /\ H x = H y.
+
+Lemma children_hashes_eq : forall t i,
+  children_hashes t i = (child_hash t (2 * i + 1), child_hash t (2 * i + 2)).
+Proof.
+  intros t i. unfold children_hashes, children.
+  destruct (2 * i + 1 <? length t) eqn:E; auto.
+  apply Nat.ltb_ge in E. unfold child_hash.
+  assert (E1 : nth_error t (2 * i + 1) = None) by (apply nth_error_None; lia).
+  assert (E2 : nth_error t (2 * i + 2) = None) by (apply nth_error_None; lia).
+  rewrite E1, E2. reflexivity.
+Qed.
+
+Lemma node_input_eq : forall t i n,
+  node_input t i n = nkey n ++ child_hash t (2 * i + 1) ++ child_hash t (2 * i + 2).
+Proof. intros. unfold node_input. rewrite children_hashes_eq. reflexivity. Qed.
+
+Lemma hash_valid_H : forall x, hash_valid (H x) = true.
+Proof. intro x. unfold hash_valid. rewrite Hlen. reflexivity. Qed.
+
+(* what Tree.IsValid checks of one node *)
+Definition node_spec (t : list node) (i : nat) (n : node) : Prop :=
+  node_valid n = true /\ nkey n <> [] /\ nhash n = H (node_input t i n).
+
+Lemma node_ok_spec : forall t i n, node_ok H t i n = true <-> node_spec t i n.
+Proof.
+  intros t i n. unfold node_ok, node_spec, node_hash, node_input.
+  destruct (node_valid n); simpl; [|split; [discriminate|intros [C _]; discriminate]].
+  destruct (is_nil (nkey n)) eqn:K.
+  - apply is_nil_true in K. split; [discriminate|]. intros [_ [C _]]. contradiction.
+  - apply is_nil_false in K. rewrite bytes_eqb_eq. split; [intro E; auto|intros [_ [_ E]]; exact E].
+Qed.
+
+Theorem valid_iff : forall t,
+  is_valid H t = true <-> (forall i n, nth_error t i = Some n -> node_spec t i n).
+Proof.
+  intro t. unfold is_valid. rewrite forallb_i_spec. split; intros E i n Ei.
+  - apply node_ok_spec. apply (E i n Ei).
+  - apply node_ok_spec. simpl. apply E. exact Ei.
+Qed.
+
+Lemma valid_node_facts : forall t i n, is_valid H t = true -> nth_error t i = Some n ->
+  nempty n = false /\ nkey n <> [] /\ nhash n = H (node_input t i n) /\ length (nhash n) = 32.
+Proof.
+  intros t i n V E. destruct (proj1 (valid_iff t) V i n E) as [_ [K Hh]].
+  assert (L : length (nhash n) = 32) by (rewrite Hh; apply Hlen).
+  repeat split; auto. unfold nhash in L. destruct (nempty n); auto. discriminate.
+Qed.
+
+Lemma child_hash_len : forall t c, is_valid H t = true ->
+  (c < length t -> length (child_hash t c) = 32) /\ (length t <= c -> child_hash t c = []).
+Proof.
+  intros t c V. unfold child_hash. split; intro L.
+  - destruct (nth_error t c) eqn:E.
+    + destruct (valid_node_facts t c n V E) as [_ [_ [_ L32]]]. exact L32.
+    + apply nth_error_None in E. lia.
+  - assert (E : nth_error t c = None) by (apply nth_error_None; lia). rewrite E. reflexivity.
+Qed.
+
+Lemma child_hash_replace_other : forall t i c x, i <> c ->
+  child_hash (replace_nth t i x) c = child_hash t c.
+Proof. intros. unfold child_hash. rewrite nth_error_replace_other; auto. Qed.
+
+Lemma node_input_replace : forall t i x n,
+  node_input (replace_nth t i x) i n = nkey n ++ child_hash t (2 * i + 1) ++ child_hash t (2 * i + 2).
+Proof.
+  intros. rewrite node_input_eq. rewrite !child_hash_replace_other by lia. reflexivity.
+Qed.
+
+(* changing only the hash of one node *)
+Theorem mutation_hash : forall t i n n',
+  is_valid H t = true -> nth_error t i = Some n ->
+  nkey n' = nkey n -> nhash n' <> nhash n ->
+  is_valid H (replace_nth t i n') = false.
+Proof.
+  intros t i n n' V E K Hd.
+  destruct (is_valid H (replace_nth t i n')) eqn:V'; auto. exfalso.
+  assert (L : i < length t) by (apply nth_error_Some; congruence).
+  destruct (valid_node_facts _ i n' V' (nth_error_replace_same _ t i n' L)) as [_ [_ [E' _]]].
+  destruct (valid_node_facts _ i n V E) as [_ [_ [E0 _]]].
+  rewrite node_input_replace in E'. rewrite node_input_eq in E0. rewrite K in E'. congruence.
+Qed.
+
+(* changing only the key of one node: the tree is invalid, or the two hash inputs of that node collide *)
+Theorem mutation_key : forall t i n n',
+  is_valid H t = true -> nth_error t i = Some n ->
+  nkey n' <> nkey n -> nhash n' = nhash n ->
+  is_valid H (replace_nth t i n') = false \/
+  (node_input t i n <> node_input t i n' /\ H (node_input t i n) = H (node_input t i n')).
+Proof.
+  intros t i n n' V E K Hd.
+  destruct (is_valid H (replace_nth t i n')) eqn:V'; auto. right.
+  assert (L : i < length t) by (apply nth_error_Some; congruence).
+  destruct (valid_node_facts _ i n' V' (nth_error_replace_same _ t i n' L)) as [_ [_ [E' _]]].
+  destruct (valid_node_facts _ i n V E) as [_ [_ [E0 _]]].
+  rewrite node_input_replace in E'. rewrite <- node_input_eq in E'.
+  split; [|congruence].
+  rewrite !node_input_eq. intro C. apply app_inv_tail in C. congruence.
+Qed.
+
+(* turning a node into an empty node *)
+Theorem mutation_empty : forall t i n',
+  i < length t -> nempty n' = true -> is_valid H (replace_nth t i n') = false.
+Proof.
+  intros t i n' L Em.
+  destruct (is_valid H (replace_nth t i n')) eqn:V'; auto. exfalso.
+  destruct (valid_node_facts _ i n' V' (nth_error_replace_same _ t i n' L)) as [C _]. congruence.
+Qed.
+
+(* ---------- generation ---------- *)
+
+Lemma gen_from_spec : forall ks i L, gen_from H ks i = Some L ->
+  length L = length ks /\
+  forall j n, nth_error L j = Some n ->
+    nempty n = false /\ nth_error ks j = Some (nkey n) /\ nkey n <> [] /\
+    nh n = H (nkey n ++ child_hash L (i + 2 * j + 1) ++ child_hash L (i + 2 * j + 2)).
+Proof.
+  induction ks as [|k ks IH]; intros i L G; simpl in G.
+  - inversion G; subst. split; auto. intros j n E. destruct j; discriminate.
+  - destruct (gen_from H ks (S i)) as [acc|] eqn:GA; try discriminate.
+    unfold node_hash in G. destruct (is_nil k) eqn:K; try discriminate.
+    inversion G; subst; clear G. destruct (IH (S i) acc GA) as [LA SA].
+    split; [simpl; congruence|].
+    intros j n E. destruct j; simpl in E.
+    + inversion E; subst; clear E. simpl. apply is_nil_false in K. repeat split; auto.
+      replace (i + 0 + 1) with (S i) by lia. replace (i + 0 + 2) with (S (S i)) by lia.
+      unfold child_hash. simpl. reflexivity.
+    + destruct (SA j n E) as [A1 [A2 [A3 A4]]]. repeat split; auto.
+      rewrite A4. replace (i + 2 * S j + 1) with (S (S i + 2 * j + 1)) by lia.
+      replace (i + 2 * S j + 2) with (S (S i + 2 * j + 2)) by lia.
+      unfold child_hash. simpl. reflexivity.
+Qed.
+
+Theorem generated_valid : forall ks t, generate H ks = Some t ->
+  is_valid H t = true /\ map nkey t = ks /\ t <> [].
+Proof.
+  intros ks t G. unfold generate in G.
+  assert (G' : gen_from H ks 0 = Some t /\ ks <> []) by (destruct ks; [discriminate|split; [exact G|discriminate]]).
+  destruct G' as [G' NE]. destruct (gen_from_spec ks 0 t G') as [L S].
+  split; [|split].
+  - apply valid_iff. intros i n E. destruct (S i n E) as [A1 [A2 [A3 A4]]].
+    unfold node_spec. rewrite node_input_eq. unfold nhash, node_valid. rewrite A1. simpl.
+    rewrite A4. simpl in *. split; [|split; auto].
+    apply is_nil_false in A3. rewrite A3. simpl. apply hash_valid_H.
+  - apply nth_error_ext. intro j. rewrite nth_error_map.
+    destruct (nth_error t j) as [n|] eqn:E; simpl.
+    + destruct (S j n E) as [_ [A2 _]]. symmetry. exact A2.
+    + apply nth_error_None in E. symmetry. apply nth_error_None. lia.
+  - intro C. subst. simpl in L. destruct ks; [contradiction|discriminate].
+Qed.
+
+(* ---------- the root binds every key (same size) ---------- *)
+
+Definition collide_at (t t' : list node) : Prop :=
+  exists i n n', nth_error t i = Some n /\ nth_error t' i = Some n' /\
+    node_input t i n <> node_input t' i n' /\ H (node_input t i n) = H (node_input t' i n').
+
+Lemma child_hash_len_eq : forall t t' c, is_valid H t = true -> is_valid H t' = true ->
+  length t = length t' -> length (child_hash t c) = length (child_hash t' c).
+Proof.
+  intros t t' c V V' L.
+  destruct (child_hash_len t c V) as [A1 A2]. destruct (child_hash_len t' c V') as [B1 B2].
+  destruct (Nat.lt_ge_cases c (length t)) as [C|C].
+  - rewrite A1, B1; auto. lia.
+  - rewrite A2, B2; auto. lia.
+Qed.
+
+Lemma inputs_decompose : forall t t' i n n', is_valid H t = true -> is_valid H t' = true ->
+  length t = length t' -> node_input t i n = node_input t' i n' ->
+  nkey n = nkey n' /\ child_hash t (2 * i + 1) = child_hash t' (2 * i + 1)
+  /\ child_hash t (2 * i + 2) = child_hash t' (2 * i + 2).
+Proof.
+  intros t t' i n n' V V' L E. rewrite !node_input_eq in E.
+  pose proof (child_hash_len_eq t t' (2 * i + 1) V V' L) as L1.
+  pose proof (child_hash_len_eq t t' (2 * i + 2) V V' L) as L2.
+  apply app_inj_len_r in E; [|rewrite !app_length; lia].
+  destruct E as [E1 E2]. apply app_inj_len in E2; auto; try tauto.
+Qed.
+
+Lemma same_hash_step : forall t t' j n n', is_valid H t = true -> is_valid H t' = true ->
+  nth_error t j = Some n -> nth_error t' j = Some n' -> nhash n = nhash n' ->
+  node_input t j n = node_input t' j n' \/ collide_at t t'.
+Proof.
+  intros t t' j n n' V V' E E' Hh.
+  destruct (bytes_eq_dec (node_input t j n) (node_input t' j n')) as [Q|Q]; auto.
+  right. exists j, n, n'. repeat split; auto.
+  destruct (valid_node_facts t j n V E) as [_ [_ [A _]]].
+  destruct (valid_node_facts t' j n' V' E') as [_ [_ [B _]]]. congruence.
+Qed.
+
+Lemma root_binds_inv : forall t t', is_valid H t = true -> is_valid H t' = true ->
+  length t = length t' -> child_hash t 0 = child_hash t' 0 ->
+  forall m,
+  (forall j n n', j <= m -> nth_error t j = Some n -> nth_error t' j = Some n' ->
+     nhash n = nhash n' /\ node_input t j n = node_input t' j n') \/ collide_at t t'.
+Proof.
+  intros t t' V V' L R. induction m as [|m IH].
+  - destruct (nth_error t 0) as [n0|] eqn:E0; destruct (nth_error t' 0) as [n0'|] eqn:E0'.
+    + assert (Hh : nhash n0 = nhash n0') by (unfold child_hash in R; rewrite E0, E0' in R; exact R).
+      destruct (same_hash_step t t' 0 n0 n0' V V' E0 E0' Hh) as [Q|Q]; auto.
+      left. intros j n n' Lj Ej Ej'. assert (j = 0) by lia. subst. rewrite E0 in Ej. rewrite E0' in Ej'.
+      inversion Ej; inversion Ej'; subst. auto.
+    + left. intros j n n' Lj Ej Ej'. assert (j = 0) by lia. subst. congruence.
+    + left. intros j n n' Lj Ej Ej'. assert (j = 0) by lia. subst. congruence.
+    + left. intros j n n' Lj Ej Ej'. assert (j = 0) by lia. subst. congruence.
+  - destruct IH as [IH|IH]; auto.
+    destruct (nth_error t (S m)) as [a|] eqn:Ea; destruct (nth_error t' (S m)) as [a'|] eqn:Ea';
+      try (left; intros j n n' Lj Ej Ej'; destruct (Nat.eq_dec j (S m)); [subst; congruence|apply IH; auto; lia]).
+    (* the parent of S m *)
+    set (p := m / 2).
+    assert (Pm : S m = 2 * p + 1 \/ S m = 2 * p + 2).
+    { unfold p. pose proof (Nat.div_mod m 2). pose proof (Nat.mod_upper_bound m 2). lia. }
+    assert (Lp : p < length t). { assert (S m < length t) by (apply nth_error_Some; congruence). lia. }
+    destruct (nth_error t p) as [b|] eqn:Eb; [|apply nth_error_None in Eb; lia].
+    destruct (nth_error t' p) as [b'|] eqn:Eb'; [|apply nth_error_None in Eb'; lia].
+    assert (Pp : p <= m) by (unfold p; apply Nat.div_le_upper_bound; lia).
+    destruct (IH p b b' Pp Eb Eb') as [_ Qp].
+    destruct (inputs_decompose t t' p b b' V V' L Qp) as [_ [C1 C2]].
+    assert (Hh : nhash a = nhash a').
+    { destruct Pm as [Pm|Pm]; rewrite <- Pm in *; unfold child_hash in *.
+      - rewrite Ea, Ea' in C1. exact C1.
+      - rewrite Ea, Ea' in C2. exact C2. }
+    destruct (same_hash_step t t' (S m) a a' V V' Ea Ea' Hh) as [Q|Q]; auto.
+    left. intros j n n' Lj Ej Ej'. destruct (Nat.eq_dec j (S m)).
+    + subst. rewrite Ea in Ej. rewrite Ea' in Ej'. inversion Ej; inversion Ej'; subst. auto.
+    + apply IH; auto. lia.
+Qed.
+
+Theorem root_binds_keys : forall t t', length t = length t' ->
+  is_valid H t = true -> is_valid H t' = true -> child_hash t 0 = child_hash t' 0 ->
+  map nkey t = map nkey t' \/ collide_at t t'.
+Proof.
+  intros t t' L V V' R.
+  destruct (root_binds_inv t t' V V' L R (length t)) as [I|I]; auto.
+  left. apply nth_error_ext. intro j. rewrite !nth_error_map.
+  destruct (nth_error t j) as [n|] eqn:E; destruct (nth_error t' j) as [n'|] eqn:E'; simpl; auto.
+  - assert (Lj : j <= length t). { assert (j < length t) by (apply nth_error_Some; congruence). lia. }
+    destruct (I j n n' Lj E E') as [_ Q].
+    destruct (inputs_decompose t t' j n n' V V' L Q) as [K _]. congruence.
+  - apply nth_error_None in E'. assert (j < length t) by (apply nth_error_Some; congruence). lia.
+  - apply nth_error_None in E. assert (j < length t') by (apply nth_error_Some; congruence). lia.
+Qed.
+
+Lemma collide_at_collision : forall t t', collide_at t t' -> collision.
+Proof. intros t t' [i [n [n' [_ [_ [A B]]]]]]. exists (node_input t i n), (node_input t' i n'). auto. Qed.
+
+End Tree.
